@@ -972,12 +972,12 @@ CLAUSES = [
            what="the 18 built-in automata: the same queries (words <= 2, enumeration n <= 3)"),
     Clause("ops_corr", "corr", gen_ops_corr, U.bounded(run_queries), judge_queries, lean=lean_queries,
            site="fsa.FSA.automaton_multiple/rename_generators/recurrent/remove_long_paths",
-           budget={"quick": 200, "thorough": 6000},
+           budget={"quick": 150, "thorough": 6000},
            what="automaton_multiple k=0..4 (views and enumeration), rename (permutation, fresh letters, incomplete map, non-injective map), "
                 "recurrent, remove_long_paths for every root x edge_ties, each as the three views vs the Lean model; original unchanged"),
     Clause("lang_oracle", "oracle", gen_lang_oracle, U.bounded(run_lang_oracle),
            judge_bad("accepts / follow_word / prefixes / enumerators agree with the reference language, each accepted word listed once"),
-           site="fsa.FSA walks and enumerators", budget={"quick": 600, "thorough": 8000},
+           site="fsa.FSA walks and enumerators", budget={"quick": 450, "thorough": 8000},
            what="reference = set of triples; all words <= 4 over the labels + a foreign letter, default start and explicit start vertices, n <= 4, "
                 "with and without states; then a history on the same object — start_vertices reassigned, its list edited in place (setitem, "
                 "insert, append; several start vertices), graph edits — with every query family re-checked after each step"),
@@ -1021,7 +1021,7 @@ from props import _defence as DF  # noqa: E402
 CLAUSES.append(
     Clause("defence_oracle", "oracle", DF.gen_lang, U.bounded(DF.run_defence), DF.judge_defence,
            site="fsa.FSA (every mutator, accessor and constructor; two automata over the same names in one process)",
-           budget={"quick": 250, "thorough": 4000},
+           budget={"quick": 200, "thorough": 4000},
            what="generic defences: (G1) after every step the object answers like a fresh object built from its current label view; (G2) argument "
                 "collections passed as list / tuple / generator / iterator / dict view / string and checked unmodified, everything the accessors "
                 "and enumerators return is mutated in place and the automaton re-examined, no mutable container shared between automata or with "
